@@ -96,6 +96,21 @@ def _enc(col, x, draw=None):
     return {"k": "str", "v": x}
 
 
+
+
+def _int_const(draw, v, vals, how):
+    if True:
+        if how <= 4:
+            return {"k": "int", "v": v}
+        if how <= 6:
+            return {"k": "int", "v": v + draw(st.sampled_from([-1, 1]))}
+        if how == 7:
+            return {"k": "int", "v": draw(st.sampled_from([min(vals) - 1, max(vals) + 1, min(vals) - 1000, max(vals) + 1000]))}
+        if how == 8 and abs(v) < 2 ** 52:
+            return {"k": "float", "v": float(v) + draw(st.sampled_from([0.0, 0.5, -0.5]))}
+        return {"k": "int", "v": draw(st.integers(min(vals) - 2, max(vals) + 2))}
+
+
 @st.composite
 def constant(draw, col, n):
     vals = [v for v in cell_values(col, n) if v is not MISSING]
@@ -122,15 +137,13 @@ def constant(draw, col, n):
     if isinstance(v, bool):
         return {"k": "bool", "v": draw(st.booleans()) if how > 6 else v}
     if isinstance(v, int):
-        if how <= 4:
-            return {"k": "int", "v": v}
-        if how <= 6:
-            return {"k": "int", "v": v + draw(st.sampled_from([-1, 1]))}
-        if how == 7:
-            return {"k": "int", "v": draw(st.sampled_from([min(vals) - 1, max(vals) + 1, min(vals) - 1000, max(vals) + 1000]))}
-        if how == 8 and abs(v) < 2 ** 52:
-            return {"k": "float", "v": float(v) + draw(st.sampled_from([0.0, 0.5, -0.5]))}
-        return {"k": "int", "v": draw(st.integers(min(vals) - 2, max(vals) + 2))}
+        c = _int_const(draw, v, vals, how)
+        if c["k"] == "int":
+            # stay inside what an integer column can be compared with exactly: beyond the
+            # 64-bit range pandas/numpy fall back to float64 and equality becomes approximate
+            hi = 2 ** 64 - 1 if col.get("sub", "").lower() == "uint64" else 2 ** 63 - 1
+            c["v"] = max(-(2 ** 63), min(hi, c["v"]))
+        return c
     if isinstance(v, float):
         import math
         if how <= 4 or not math.isfinite(v):
@@ -145,9 +158,10 @@ def constant(draw, col, n):
         return {"k": "float", "v": v}
     # text
     if how <= 5:
-        return {"k": "str", "v": v}
+        return {"k": "str", "v": v.rstrip("\x00")}
     if how == 6:
-        return {"k": "str", "v": v + draw(st.sampled_from(["", "a", "\x00", "z"]))}
+        # (no trailing NUL: numpy strips it when a str is compared with an object array)
+        return {"k": "str", "v": (v + draw(st.sampled_from(["", "a", " ", "z"]))).rstrip("\x00")}
     if how == 7:
         return {"k": "str", "v": v[:-1]}
     return {"k": "str", "v": draw(st.sampled_from(["", "a", "zzzz", "\U0010ffff", "0", "A"]))}
